@@ -28,7 +28,8 @@ def gen_batch(r, bi, services=False, can=False, n_random=(6, 9), out_of_order=Tr
     add(p + "Carr", [("a", 0, ("u", r.randint(1, 7))), ("b", 1, ("u", ws[0])), ("c", 2, ("i", ws[1])), ("d", 3, ("i", ws[2])), ("e", 4, ("u", ws[3]))])
     # enums after a sub-byte field, float/str after sub-byte fields
     add(p + "Enum", [("a", 0, ("u", r.randint(1, 7))), ("e0", 1, ("enum", enums[0])), ("e1", 2, ("enum", enums[1])), ("e2", 3, ("enum", enums[2])), ("z", 4, ("u", 3))])
-    add(p + "Flt", [("a", 0, ("u", r.randint(1, 7))), ("f", 1, ("f32",)), ("g", 2, ("f64",)), ("s", 3, ("str",)), ("z", 4, ("i", 5))])
+    add(p + "Flt", [("a", 0, ("u", r.randint(1, 7))), {"name": "f", "id": 1, "type": ("f32",), "unit": r.choice(["°C", "µV", "Ω", "m/s²"])},
+                    {"name": "g", "id": 2, "type": ("f64",), "unit": "rad", "range": (-3.25, 3.25)}, ("s", 3, ("str",)), ("z", 4, ("i", 5))])
     # ids declared out of order with asymmetric widths
     add(p + "Ord", [("c", 9, ("u", 5)), ("a", 2, ("u", 11)), ("b", 4, ("i", 3)), ("d", 0, ("f32",))] if out_of_order else [("d", 0, ("f32",)), ("a", 2, ("u", 11)), ("b", 4, ("i", 3)), ("c", 9, ("u", 5))])
     add(p + "In", [("p", 1, ("i", 6)), ("q", 3, ("u", 3))] if not out_of_order else [("q", 3, ("u", 3)), ("p", 1, ("i", 6))])
@@ -68,7 +69,9 @@ def gen_batch(r, bi, services=False, can=False, n_random=(6, 9), out_of_order=Tr
         add(n, fields)
     can_bindings = []
     if can:
-        ids = r.sample(range(0, 2048), 6)
+        ids = r.sample(range(1, 2047), 6)
+        ids[r.randrange(6)] = 0  # boundary frame ids: 0 (falsy) and 2047 in every batch
+        ids[next(i for i in range(6) if ids[i] != 0)] = 2047
         buses = r.sample(["a", "pt", "can", "can0", "b1", "xy"], 3)
         k = 0
         from .schema import Sch
